@@ -389,12 +389,12 @@ def normal(case):
     return {"objects": case["questions"], "sessions": [{"lines": case["lines"], "asks": list(range(len(case["questions"])))}]}
 
 
-def failed_event(qd, lines, route, sess, obj, reask, e):
+def failed_event(qd, lines, route, sess, obj, reask, e, start=0):
     """a step of the driver outside ask() raised (building the question, preparing the I/O): an observation, not a crash"""
     return {
         "q": q_event(qd), "sess": sess, "obj": obj, "reask": reask,
         "route": [{"op": o["op"], "ls": [cl(x) for x in o["ls"]], "b": o["b"]} for o in route],
-        "script": [cl(x) for x in lines], "start": 0,
+        "script": [cl(x) for x in lines], "start": start,
         "obs": {"kind": "exc", "cls": type(e).__name__, "val": proj(None), "reads": 0, "consumed": 0, "errs": 0, "prompts": 0,
                 "outBytes": 0, "errBytes": 0, "maxAfter": qd["maxAtt"], "listSame": True},
     }
@@ -434,7 +434,7 @@ def run_case(case):
                 except (KeyboardInterrupt, Stalled):
                     raise
                 except Exception as e:  # noqa
-                    tr.append(failed_event(case["objects"][i], ses["lines"], s.pending, k + 1, i + 1, reask, e))
+                    tr.append(failed_event(case["objects"][i], ses["lines"], s.pending, k + 1, i + 1, reask, e, s.ins.consumed))
                     s.pending = []
                     continue
                 q, cl_, qd = objs[i]
